@@ -835,6 +835,15 @@ class Evaluator:
                 s2.env[a["name"]] = self.binop((e.get("op") or "").rstrip("="), old, v)
                 yield s2, ("unit",)
             return
+        if self.ints and getattr(self, "vecs", False) and self.recv_path_of(a) is not None:
+            # folding tables: `self.position += 2` (a field of a tracked record, or through a reference)
+            path = self.recv_path_of(a)
+            for s, v in self.ev(e["b"], st):
+                s2 = s.fork()
+                old = self.get_path(s2, path)
+                self.put(s2, path, self.binop((e.get("op") or "").rstrip("="), old, v) if old is not None else ("unknown", "compound assignment to an unknown place"))
+                yield s2, ("unit",)
+            return
         yield st, ("unit",)
 
     def ev_Field(self, e, st):
@@ -1080,6 +1089,18 @@ class Evaluator:
                         break
             if ok:
                 yield s, ("iterv", out)
+        elif seq0 is not None and method in ("take_while", "skip_while") and len(args) == 2 and args[1][0] == "closure" and len(args[1]) == 4:
+            n, okk = 0, True
+            for x in seq0:
+                rs = list(self.apply_closure(args[1], [x], s))
+                if len(rs) != 1 or rs[0][1][0] != "bool":
+                    okk = False
+                    break
+                if not rs[0][1][1]:
+                    break
+                n += 1
+            if okk:
+                yield s, ("iterv", list(seq0[:n] if method == "take_while" else seq0[n:]))
         elif seq0 is not None and method in ("all", "any") and len(args) == 2 and args[1][0] == "closure" and len(args[1]) == 4:
             res, ok = [], True
             for x in seq0:
